@@ -274,7 +274,11 @@ func (g *genState) next(p *scriptProfile) {
 		}
 	case pick(p.wSend):
 		st := r.ref.VerifState()
-		if nS <= 1 && rng.Intn(6) == 0 {
+		if nS <= 1 && rng.Intn(6) == 0 && (st.Open == nil || st.Out != nil) {
+			// Send with an already cancelled context.  Only where it cannot place its message
+			// (session closed or slot busy): if it places the message, whether the loop transmits
+			// it before the Send notices the cancellation is a genuine race (the Go runtime may
+			// preempt the Send goroutine between its lock region and its select under load)
 			r.apply(&sop{kind: "sendc", body: g.body()})
 			g.class("op:send-cancelled-ctx")
 		} else if nS == 0 || (nS == 1 && st.Out != nil && st.Open != nil && p.name != "c19") {
